@@ -75,6 +75,10 @@ func main() {
 		fmt.Fprintln(os.Stderr, "usage: harness gen|exec <component> ...")
 		os.Exit(2)
 	}
+	if os.Args[1] == "stress" {
+		stressMain(os.Args[2:])
+		return
+	}
 	c := components[os.Args[2]]
 	if c == nil {
 		var names []string
